@@ -257,6 +257,7 @@ type Render struct {
 	JunkStyles   int
 	JunkEvents   int
 	Unknown      int
+	SecOrder     int // 0 styles section, then events; 1 events before the styles; 2 one style before the events, the others in a second styles section after them
 }
 
 func identity(n int) []int {
@@ -520,7 +521,10 @@ func (d Doc) Bytes(r Render) []byte {
 	blank()
 	unknown(1)
 	// --- styles
-	if len(d.Styles) > 0 {
+	emitStyles := func(styles []Style) {
+		if len(styles) == 0 {
+			return
+		}
 		switch {
 		case d.V4Plus && r.PlusSuffix:
 			lines = append(lines, secName("V4 Styles+", r))
@@ -541,7 +545,7 @@ func (d Doc) Bytes(r Render) []byte {
 		if r.JunkStyles == 1 {
 			lines = append(lines, "Not understood line")
 		}
-		for _, s := range d.Styles {
+		for _, s := range styles {
 			var cells []string
 			for _, k := range r.StyleOrder {
 				if cols[k] == "Name" {
@@ -577,42 +581,65 @@ func (d Doc) Bytes(r Render) []byte {
 		}
 		blank()
 	}
-	unknown(2)
 	// --- events
-	lines = append(lines, secName("Events", r))
-	if r.JunkEvents == 8 {
-		lines = append(lines, "Not understood line")
-	}
-	var names []string
-	for _, k := range r.EventOrder {
-		names = append(names, d.eventColName(ecols[k]))
-	}
-	names = append(names, "Text")
-	lines = append(lines, kv("Format", strings.Join(names, r.FormatSep), r))
-	switch r.JunkEvents {
-	case 1:
-		lines = append(lines, "Not understood line")
-	case 2:
-		lines = append(lines, d.eventRow("Comment", ghost, ecols, r))
-	}
-	for k, e := range d.Events {
-		lines = append(lines, d.eventRow("Dialogue", e, ecols, r))
-		if k == 0 {
-			switch r.JunkEvents {
-			case 3:
-				lines = append(lines, d.eventRow("Picture", ghost, ecols, r))
-			case 5:
-				lines = append(lines, d.eventRow("Movie", ghost, ecols, r))
+	emitEvents := func() {
+		lines = append(lines, secName("Events", r))
+		if r.JunkEvents == 8 {
+			lines = append(lines, "Not understood line")
+		}
+		var names []string
+		for _, k := range r.EventOrder {
+			names = append(names, d.eventColName(ecols[k]))
+		}
+		names = append(names, "Text")
+		lines = append(lines, kv("Format", strings.Join(names, r.FormatSep), r))
+		switch r.JunkEvents {
+		case 1:
+			lines = append(lines, "Not understood line")
+		case 2:
+			lines = append(lines, d.eventRow("Comment", ghost, ecols, r))
+		}
+		for k, e := range d.Events {
+			lines = append(lines, d.eventRow("Dialogue", e, ecols, r))
+			if k == 0 {
+				switch r.JunkEvents {
+				case 3:
+					lines = append(lines, d.eventRow("Picture", ghost, ecols, r))
+				case 5:
+					lines = append(lines, d.eventRow("Movie", ghost, ecols, r))
+				}
 			}
 		}
+		switch r.JunkEvents {
+		case 4:
+			lines = append(lines, d.eventRow("Sound", ghost, ecols, r))
+		case 6:
+			lines = append(lines, d.eventRow("Command", ghost, ecols, r))
+		case 7:
+			lines = append(lines, "Not understood line")
+		}
 	}
-	switch r.JunkEvents {
-	case 4:
-		lines = append(lines, d.eventRow("Sound", ghost, ecols, r))
-	case 6:
-		lines = append(lines, d.eventRow("Command", ghost, ecols, r))
-	case 7:
-		lines = append(lines, "Not understood line")
+	switch {
+	case r.SecOrder == 1 && len(d.Styles) > 0:
+		unknown(2)
+		emitEvents()
+		blank()
+		emitStyles(d.Styles)
+	case r.SecOrder == 2 && len(d.Styles) >= 2:
+		emitStyles(d.Styles[:1])
+		unknown(2)
+		emitEvents()
+		blank()
+		emitStyles(d.Styles[1:])
+	default:
+		emitStyles(d.Styles)
+		unknown(2)
+		emitEvents()
+	}
+	if r.SecOrder != 0 {
+		for len(lines) > 0 && lines[len(lines)-1] == "" {
+			lines = lines[:len(lines)-1]
+		}
 	}
 	if r.Unknown == 3 {
 		blank()
